@@ -39,6 +39,7 @@ class Adversary:
         nonlazy    everything expires except instantiating a lazy encoder
         lazy       instantiating a lazy (or pattern) encoder expires, nothing else does
         enum       everything expires except instantiating an enumerating encoder (the last selection stage decides)
+        only:<k>   everything expires except instantiating the k-th candidate tried (k = 0, 1, ...)
         mask:<n>   call i expires iff bit (i mod 24) of n is set"""
 
     def __init__(self, spec):
@@ -61,6 +62,12 @@ class Adversary:
             expire = not (is_inst and isinstance(args[0], LazyEncoder))
         elif spec == 'lazy':
             expire = is_inst and isinstance(args[0], LazyEncoder)
+        elif spec.startswith('only:'):
+            # only:<k> -- everything expires except instantiating the k-th candidate in selection order
+            # (pattern, then eager / lazy in the order of the stage reached, then enumerating)
+            if is_inst:
+                self.n_inst = getattr(self, 'n_inst', 0) + 1
+            expire = not (is_inst and self.n_inst == int(spec.split(':')[1]) + 1)
         elif spec == 'enum':
             expire = not (is_inst and type(args[0]).__module__.startswith('adsg_core.optimization.assign_enc.enumerating'))
         else:
@@ -177,7 +184,12 @@ def drive(sd, workdir, tid=0, limit=2.0, other=None, seed=0, eager_max=None):
             rec = {'e': 'Sel', 'hist': 'other_process', 'limit_ms': limit_ms(limit), 'sched': limit if is_sched(limit) else '', 'err': other['err'], 'desc': other['desc'] or {'encoder': '', 'ndv': [], 'map': []},
                    'matrix_cache_ok': True, 'loaded': {'encoder': '', 'ndv': [], 'map': []}, 'same_key': other['key'] == st.get_cache_key()}
             if not other['err']:
-                os.environ['XDG_CACHE_HOME'] = other['dir']
+                # a private copy of the directory the other process wrote: the workers of this harness run at the same
+                # time, and the library's cache writes are not atomic (SelectorCache.tla, NonAtomicWrite) -- two workers
+                # on the same settings sharing one directory would be concurrent processes, which is not this history
+                oth = os.path.join(workdir, 'oth%d' % tid)
+                shutil.copytree(other['dir'], oth)
+                os.environ['XDG_CACHE_HOME'] = oth
                 try:
                     mgr = select(st, limit)             # served from the cache the other process wrote
                     rec['loaded'] = describe(mgr, plist)
@@ -193,6 +205,7 @@ def drive(sd, workdir, tid=0, limit=2.0, other=None, seed=0, eager_max=None):
         else:
             os.environ['XDG_CACHE_HOME'] = old_xdg
         shutil.rmtree(own, ignore_errors=True)
+        shutil.rmtree(os.path.join(workdir, 'oth%d' % tid), ignore_errors=True)
     return {'tid': tid, 's': sd, 'ev': ev, 'sel': sel}
 
 
